@@ -489,6 +489,7 @@ func checkImageURLSources(p *core.Program, r *core.Report, rule string) {
 // must tokenise the attribute with the same regular expression (and nothing else).
 func checkSrcsetAgreement(p *core.Program, r *core.Report, rule string) {
 	srcsetPats := map[string]bool{}
+	perFn := map[string][]string{}
 	for _, key := range []string{domutilPkg + ".MakeAllSrcSetAbsolute", domutilPkg + ".GetSrcSetURLs"} {
 		fn := mustInl(p, r, rule, key)
 		if fn == nil {
@@ -513,10 +514,11 @@ func checkSrcsetAgreement(p *core.Program, r *core.Report, rule string) {
 						if a := core.NewCanon(p).Of(call.Call.Args[0]); strings.HasPrefix(a, "rx‹") {
 							srcsetPats[a] = true
 						}
-						if core.NewCanon(p).Of(call.Call.Args[0]) == rxSrcset {
+						if a := core.NewCanon(p).Of(call.Call.Args[0]); strings.HasPrefix(a, "rx‹") {
 							usesRx = true
+							perFn[key] = append(perFn[key], a)
 						} else {
-							other = append(other, name+" on "+core.NewCanon(p).Of(call.Call.Args[0]))
+							other = append(other, name+" on "+a)
 						}
 					}
 					if name == "strings.Split" || name == "strings.Fields" || name == "strings.SplitN" || name == "strings.FieldsFunc" {
@@ -525,8 +527,10 @@ func checkSrcsetAgreement(p *core.Program, r *core.Report, rule string) {
 				}
 			}
 		}
-		r.Add(rule, core.ShortKey(fn)+" tokenises srcset with the reviewed srcset pattern only", p.Pos(fn.Pos()), usesRx && len(other) == 0, fmt.Sprintf("other tokenisers: %v", other))
+		r.Add(rule, core.ShortKey(fn)+" tokenises srcset with a constant pattern only", p.Pos(fn.Pos()), usesRx && len(other) == 0, fmt.Sprintf("other tokenisers: %v", other))
 	}
+	// writer and reader use one and the same pattern (what it has to do is asked below)
+	r.Add(rule, "the srcset writer and reader tokenise with the same single pattern", "", len(srcsetPats) == 1 && len(perFn) == 2, fmt.Sprintf("patterns: %v", sortedKeys(srcsetPats)))
 	// what the pattern constant says about fixed srcset values (compiled here, no code of the
 	// repository runs): group 1 of its matches are the candidate URLs, descriptors - a width with
 	// an optional height, or a density - belong to none of them
@@ -541,7 +545,9 @@ func checkSrcsetAgreement(p *core.Program, r *core.Report, rule string) {
 			want []string
 		}{{"a.jpg", []string{"a.jpg"}}, {"a.jpg 1x, b.jpg 2x", []string{"a.jpg", "b.jpg"}}, {"a.jpg 1.5x,b.jpg 2x", []string{"a.jpg", "b.jpg"}},
 			{"a-480.jpg 480w, a-800.jpg 800w", []string{"a-480.jpg", "a-800.jpg"}}, {"a-640.jpg 640w 480h, b.jpg 2x", []string{"a-640.jpg", "b.jpg"}},
-			{"img/a,b.jpg 1x, c.jpg 2x", []string{"img/a,b.jpg", "c.jpg"}}} {
+			{"img/a,b.jpg 1x, c.jpg 2x", []string{"img/a,b.jpg", "c.jpg"}},
+			// a descriptor is a floating-point number with its unit: exponents are numbers too
+			{"img/a.png 1e0x, img/b.png 2e0x", []string{"img/a.png", "img/b.png"}}, {"a-big.jpg 1e3x", []string{"a-big.jpg"}}, {"a.jpg 1.5E+1x, b.jpg 25e-1x", []string{"a.jpg", "b.jpg"}}} {
 			var got []string
 			for _, m := range re.FindAllStringSubmatch(w.in, -1) {
 				if len(m) > 1 {
